@@ -529,7 +529,7 @@ func (e *Engine) instrEffects(x *Exec, fn *ssa.Function, ins ssa.Instruction, ef
 	case *ssa.Store:
 		e.addrEffects(x, i.Addr, eff)
 	case *ssa.MapUpdate:
-		k := typeKey(i.Map.Type())
+		k := mapTypeKey(i.Map.Type())
 		eff.comps["MV!"+k] = true
 		eff.comps["MD!"+k] = true
 	case *ssa.Alloc:
@@ -645,7 +645,7 @@ func (e *Engine) callEffects(x *Exec, cc *ssa.CallCommon, eff *effects, depth in
 		case "copy":
 			eff.comps["E!"+typeKey(cc.Args[0].Type().Underlying().(*types.Slice).Elem())] = true
 		case "delete":
-			k := typeKey(cc.Args[0].Type())
+			k := mapTypeKey(cc.Args[0].Type())
 			eff.comps["MD!"+k] = true
 		}
 		return
